@@ -154,6 +154,13 @@ theorem PS.next_le (s : PS) : PS.Le s (s.next c) :=
      simp only [PS.next]
      exact ErrList.addAll_ok hmax _ _ h.2⟩⟩
 
+omit hmax in
+theorem PS.enter_le (s : PS) (d : Nat) : PS.Le s (s.enter d) :=
+  ⟨Nat.le_refl _, id, id⟩
+
+omit hmax in
+theorem PS.enter_m (s : PS) (d : Nat) : (s.enter d).m = s.m := rfl
+
 theorem PS.errAt_le (s : PS) (code : String) (t : Tok) : PS.Le s (s.errAt c code t) :=
   ⟨by simp only [PS.errAt, PS.m]; exact Nat.le_refl _, fun _ => by simp [PS.errAt, ErrList.add],
    fun h => ⟨by simpa [PS.errAt] using ErrList.add_ok hmax _ _ h.1, by simpa [PS.errAt] using h.2⟩⟩
